@@ -45,6 +45,9 @@ def run_one(tape, opts):
     out = Outcome()
     flavour = tape.choice("config", lc.FLAVOURS, "flavour")
     cfg = cfg_for(tape)
+    if opts.get("tier") == "thorough":
+        cfg.max_ops += 2
+        cfg.max_cleanups += 2
     runner = lc.draw_runner(tape)
     if runner != "plain":
         cfg.skip_decorators = False     # what @skip does to setUp/tearDown under the Twisted runners is not in any property
